@@ -124,6 +124,52 @@ def run(ctx):
                                        "cats": sorted(cats), "scenario": meta})
                 elif e_inv and len(samples) < 3 and prog["id"].endswith("_t"):
                     samples.append({"scenario": meta, "expected": sorted(e_inv), "transformed_source": prog["pkgs"][-1]["files"][0]["src"][:1500]})
+    # programs with @ignore comments (Scope.tla scenarios): the comment travels with its declaration / statement
+    import gen_scope
+    from checks import c07
+    scs, r = progcheck.tlc_scenarios(ctx, "Scope", c07.cfg("all" if thorough else "quick"), "c12_scope")
+    total += len(scs)
+    scs = [sc for sc in scs if sc["slot"] not in ("F0", "G0") and sc["kind"] in ("IMM01", "CTOR01", "CTOR03", "TONL01", "TONL02", "PKGO01", "PKGO03")]
+    pick = progcheck.sample(scs, 3000 if thorough else 500, ctx.seed)
+    items = []
+    for i, sc in enumerate(pick):
+        prog, exp, _pos = gen_scope.build_scope(sc, "C12_scope_%d" % i)
+        code = gen_scope.CODE.get(sc["kind"], sc["kind"])
+        if code in ONCE and sc["slot"] not in ("D5", "TD5"):
+            # the once-per-file codes are compared as (type, code) per using package: keep the uses in one file only,
+            # otherwise the second file's own report masks a report that vanished from the first
+            for f in prog["pkgs"][-1]["files"]:
+                if f["name"] == "u/f2.go":
+                    f["src"] = "package u\n\nfunc fn4() {}\n"
+            exp = {k for k in exp if k[0] != "u/f2.go"}
+        pr = project_factory(prog, "m/u", None)
+        e_inv = pr([{"file": fn, "line": ln, "code": c} for (fn, ln, c) in exp])
+        kinds = rng.choice([("perm",), ("move",), ("blank",), ("gofmt",), ("perm", "gofmt"), ("move", "blank")])
+        by_kind["ignore:" + "+".join(kinds)] = by_kind.get("ignore:" + "+".join(kinds), 0) + 1
+        tprog, _ = layout.transform(prog, "m/u", rng, kinds)
+        tprog["id"] = prog["id"] + "_t"
+        meta = {"module": "Scope", "scenario": {k: sc[k] for k in ("kind", "slot", "list")}, "transform": list(kinds)}
+        items.append((prog, e_inv, meta, pr, code))
+        items.append((tprog, e_inv, meta, project_factory(tprog, "m/u", None), code))
+    res = proglib.run_vh(ctx, [it[0] for it in items])
+    for prog, e_inv, meta, pr, code in items:
+        r = res[prog["id"]]
+        pairs += 1
+        if r.get("err"):
+            raise vlib.ToolError("transformed program does not load (transformation bug): %s %s" % (r["err"][:500], meta))
+        got = pr([d for d in r["diags"] if d["code"] == code]) if not r.get("fail") else None
+        nontrivial += 1 if e_inv else 0
+        if got != e_inv:
+            r2 = proglib.run_vh(ctx, [prog])[prog["id"]]
+            got2 = pr([d for d in r2["diags"] if d["code"] == code]) if not r2.get("fail") else None
+            if got2 == e_inv:
+                raise vlib.ToolError("mismatch did not reproduce: %s" % meta)
+            if len(ctx.violations) < 3:
+                ctx.violation("program with `@ignore` (%s) after %s: expected %s, observed %s"
+                              % (meta["scenario"], meta["transform"] if prog["id"].endswith("_t") else "no transformation", sorted(e_inv),
+                                 sorted(got2) if got2 is not None else r2.get("fail", "")[:200]),
+                              {"kind": "layout", "program": prog, "expected": sorted(e_inv), "observed": sorted(got2) if got2 else None,
+                               "cats": [code[:-2]], "scenario": meta})
     return ctx.finish("model_checking", {
         "traces_validated_against_impl": pairs,
         "samples": samples,
